@@ -3,7 +3,8 @@
    functions is trusted (tested against closed forms by the harness); [S] below stands for them. *)
 From Coq Require Import List Arith Bool QArith Reals.
 Import ListNotations.
-From Flodym Require Import Base.ND Model.Stocks Model.Lifetime Proofs.C08Proofs.
+From Flodym Require Import Base.ND Model.Stocks Model.Lifetime Proofs.C08Proofs Proofs.StockAlgebra.
+From Coq Require Import Lra Lia RealField.
 
 (* the quadrature tables of the CURRENT source (regenerated on every run), all rules n = 2..10:
    n nodes from -1 to 1, strictly increasing, antisymmetric; positive symmetric weights summing to 2;
@@ -52,7 +53,29 @@ Theorem C08_never_increases_with_age :
 Proof. exact sf_antitone. Qed.
 Print Assumptions C08_never_increases_with_age.
 
-(* survival + cumulated outflow probabilities = 1 : see C09_cohort_conserved / pdf_telescopes *)
+(* survival(t,c) + sum of the outflow probabilities up to t = 1, for every table that is zero for cohorts later than the year
+   (the outflow-probability table being the negative differences of the survival table, 1 - survival on the diagonal) *)
+Theorem C08_survival_plus_cumulated_outflow_probabilities_is_one :
+  forall (sf : nat -> nat -> R), (forall t c, (t < c)%nat -> sf t c = 0%R) ->
+  forall c t, (c <= t)%nat ->
+  (sf t c + ssum R 0%R Rplus (Datatypes.S t) (fun tau => pdf R 0%R 1%R Rminus sf tau c) = 1)%R.
+Proof. intros sf Hl c t H. apply (pdf_telescopes R 0%R 1%R Rplus Rmult Rminus Ropp Rdiv Rinv RealField.Rfield); assumption. Qed.
+Print Assumptions C08_survival_plus_cumulated_outflow_probabilities_is_one.
+
+(* ... and every outflow probability is non-negative as soon as the survival table starts at most at 1 and never increases with age
+   (which C08_in_unit_interval and C08_never_increases_with_age give for every non-increasing survival function with values in [0,1]) *)
+Theorem C08_outflow_probabilities_are_nonnegative :
+  forall (sf : nat -> nat -> R), (forall c, (sf c c <= 1)%R) -> (forall t c, (c <= t)%nat -> (sf (Datatypes.S t) c <= sf t c)%R) ->
+  forall t c, (0 <= pdf R 0%R 1%R Rminus sf t c)%R.
+Proof.
+  intros sf Hd Ha t c. unfold pdf.
+  destruct (Nat.ltb_spec t c) as [Hlt|Hge]; [apply Rle_refl|].
+  destruct (Nat.eqb_spec t c) as [->|Hne].
+  - specialize (Hd c). lra.
+  - destruct t as [|t']; [lia|]. replace (Datatypes.S t' - 1)%nat with t' by lia.
+    assert (Hc : (c <= t')%nat) by lia. specialize (Ha t' c Hc). lra.
+Qed.
+Print Assumptions C08_outflow_probabilities_are_nonnegative.
 
 (* log-normal: the parameters handed to scipy are those of the distribution with the GIVEN mean and std *)
 Theorem C08_lognormal_given_by_its_own_mean_and_std :
@@ -61,3 +84,18 @@ Theorem C08_lognormal_given_by_its_own_mean_and_std :
   (exp (mu + sg*sg/2) = m /\ (exp (sg*sg) - 1) * exp (2*mu + sg*sg) = s*s)%R.
 Proof. exact lognormal_moments. Qed.
 Print Assumptions C08_lognormal_given_by_its_own_mean_and_std.
+
+(* for the survival table itself: any survival function with values in [0,1] that never increases with age, any quadrature with
+   non-negative weights summing to one (C08_gauss_lobatto_tables / C08_quadrature_on_unit_interval), any non-decreasing interval bounds *)
+Theorem C08_outflow_probabilities_of_the_table_are_nonnegative :
+  forall (P : Type) (S : R -> P -> R) b quad prm,
+  (forall a p, (0 <= S a p <= 1)%R) -> (forall a a' p, (a <= a')%R -> (S a' p <= S a p)%R) ->
+  Forall (fun ew => (0 <= snd ew)%R) quad -> sum 0%R Rplus (map snd quad) = 1%R ->
+  (forall t, (nthF R 0%R b (Datatypes.S t) <= nthF R 0%R b (Datatypes.S (Datatypes.S t)))%R) ->
+  forall t c, (0 <= pdf R 0%R 1%R Rminus (sf_entry R 0%R 1%R Rplus Rmult Rminus P S b quad prm) t c)%R.
+Proof.
+  intros P S b quad prm H01 Hanti Hw Hsum Hb. apply C08_outflow_probabilities_are_nonnegative.
+  - intros c. destruct (C08_in_unit_interval P S b quad prm c c H01 Hw) as [_ Hle]. rewrite Hsum in Hle. exact Hle.
+  - intros t c Hc. apply C08_never_increases_with_age; auto.
+Qed.
+Print Assumptions C08_outflow_probabilities_of_the_table_are_nonnegative.
